@@ -51,16 +51,16 @@ MAX_STEPS = 8000
 
 
 def cases(tier, seed):
-    n = 70 if tier == 'quick' else 700
+    n = 70 if tier == 'quick' else 2000
     out = []
     for i in range(n):
         out.append({'name': 'power-%d' % i, 'kind': 'power',
                     'seed': [seed, 31, i]})
-    ncore = 8 if tier == 'quick' else 60
+    ncore = 8 if tier == 'quick' else 200
     for i in range(ncore):
         out.append({'name': 'corepower-%d' % i, 'kind': 'core',
                     'seed': [seed, 32, i]})
-    nlin = 10 if tier == 'quick' else 80
+    nlin = 10 if tier == 'quick' else 300
     for i in range(nlin):
         out.append({'name': 'linear-%d' % i, 'kind': 'linear',
                     'seed': [seed, 33, i]})
